@@ -86,6 +86,9 @@ type Scenario struct {
 	// after LeaveNs of virtual time (0 = no twin); the first client must not
 	// notice.
 	Twins []int64 `json:"twins,omitempty"`
+	// CLIPick selects the leaf and the depth of the partial subscription the
+	// CLI forms are compared on.
+	CLIPick int `json:"cli_pick,omitempty"`
 }
 
 type H struct{}
@@ -246,6 +249,7 @@ func (H) Generate(rng *simrt.Rand, prop, tier string) (any, simrt.Config) {
 			}
 		}
 	}
+	sc.CLIPick = rng.Intn(1 << 20)
 	return sc, cfg
 }
 
@@ -922,7 +926,201 @@ func judgeCLI(x *common.Exec, sc *Scenario, ctx context.Context, addr string, ex
 				return
 			}
 		}
+		if !judgeCLIPartial(x, sc, ctx, addr, b, t, expected[i], wantSingle, skipJSON, pf) {
+			return
+		}
+		if !hasBytes && !skipJSON {
+			if !judgeCLIModes(x, ctx, addr, t, wantP) {
+				return
+			}
+		}
 	}
+}
+
+// groupLeaves parses one `group` display output and returns the non-metadata
+// leaves of target it shows.
+func groupLeaves(out, target string) (map[string]string, error) {
+	var tree map[string]any
+	if e := json.Unmarshal([]byte(out), &tree); e != nil {
+		return nil, e
+	}
+	got := map[string]string{}
+	var walk func(p []string, v any)
+	walk = func(p []string, v any) {
+		if m, ok := v.(map[string]any); ok {
+			for k, c := range m {
+				walk(append(append([]string(nil), p...), k), c)
+			}
+			return
+		}
+		if len(p) >= 2 && p[0] == target && p[1] != "meta" {
+			got[strings.Join(p[1:], "/")] = "present"
+		}
+	}
+	walk(nil, tree)
+	return got, nil
+}
+
+// judgeCLIModes: the same subscription through the CLI's POLL and STREAM modes
+// (group display). Every displayed snapshot must denote the target's final
+// state: each of the polls, and the walk a streaming query prints at the sync.
+func judgeCLIModes(x *common.Exec, ctx context.Context, addr string, t TargetSpec, wantP map[string]string) bool {
+	var outs []string
+	var err error
+	cfg := &cli.Config{Display: func(b []byte) { outs = append(outs, string(b)) }, DisplayType: "group", DisplayIndent: " ", ClientTypes: []string{gclient.Type},
+		Count: 2, PollingInterval: 3 * time.Second}
+	q := client.Query{Addrs: []string{addr}, Target: t.Name, Queries: []client.Path{{"*"}}, Type: client.Poll, Timeout: 20 * time.Second}
+	if !runTask(x, "cli-poll", func() { err = cli.QueryDisplay(ctx, q, cfg) }) {
+		x.Violate("C01/cli-stuck", "cli.QueryDisplay (group, POLL, count 2) did not return")
+		return false
+	}
+	x.Oblige(2)
+	if err != nil || len(outs) != 2 {
+		x.Violate("C01/cli-poll-differs", "target %s: POLL query with count 2 printed %d snapshots, err=%v", t.Name, len(outs), err)
+		return false
+	}
+	for k, o := range outs {
+		got, e := groupLeaves(o, t.Name)
+		if e != nil {
+			x.Violate("C01/cli-group-unparsable", "`group` display of poll %d does not parse: %v\n%s", k, e, o)
+			return false
+		}
+		if viewString(got) != viewString(wantP) {
+			x.Violate("C01/cli-poll-differs", "target %s: poll %d of a POLL query shows leaves\n%swant\n%s", t.Name, k, viewString(got), viewString(wantP))
+			return false
+		}
+	}
+	x.Probe("cli-poll-mode-compared")
+	// STREAM for a bounded duration: the snapshot printed at the sync.
+	outs = nil
+	cfg = &cli.Config{Display: func(b []byte) { outs = append(outs, string(b)) }, DisplayType: "group", DisplayIndent: " ", ClientTypes: []string{gclient.Type},
+		StreamingDuration: 5 * time.Second}
+	q.Type = client.Stream
+	if !runTask(x, "cli-stream", func() { err = cli.QueryDisplay(ctx, q, cfg) }) {
+		x.Violate("C01/cli-stuck", "cli.QueryDisplay (group, STREAM, streaming duration 5s) did not return")
+		return false
+	}
+	x.Oblige(1)
+	if len(outs) == 0 {
+		x.Violate("C01/cli-stream-differs", "target %s: STREAM query printed nothing within its streaming duration (err=%v)", t.Name, err)
+		return false
+	}
+	got, e := groupLeaves(outs[0], t.Name)
+	if e != nil {
+		x.Violate("C01/cli-group-unparsable", "`group` display of a STREAM query does not parse: %v\n%s", e, outs[0])
+		return false
+	}
+	x.Probe("cli-stream-mode-compared")
+	if viewString(got) != viewString(wantP) {
+		x.Violate("C01/cli-stream-differs", "target %s: the snapshot a STREAM query prints at the sync shows leaves\n%swant\n%s", t.Name, viewString(got), viewString(wantP))
+		return false
+	}
+	return true
+}
+
+// judgeCLIPartial: a subscription to one subtree of the target (a keyed path
+// with its origin), handed to the shipped gnmi_cli in four equivalent ways:
+// query flags (origin as the first path node, keys in brackets), inline proto
+// with the origin in the path, proto file with the origin in the prefix, and
+// inline proto with the origin as the first path element. All must print
+// exactly the final leaves below that path.
+func judgeCLIPartial(x *common.Exec, sc *Scenario, ctx context.Context, addr string, b *gen.Builder, t TargetSpec, expected, wantSingle map[string]string, skipJSON bool, pf string) bool {
+	// structured paths of the final leaves
+	type lp struct {
+		origin string
+		elems  []gen.Elem
+	}
+	structured := map[string]lp{}
+	for _, n := range t.Sessions[len(t.Sessions)-1] {
+		no := stamped(b, n, t.Name)
+		for ui, u := range no.Update {
+			if ui >= len(n.Ups) || n.Ups[ui].DeprPath || n.DeprPfx {
+				continue
+			}
+			k := strings.Join(gen.LeafKey(no.Prefix, u.Path), "/")
+			if _, ok := expected[k]; ok {
+				structured[k] = lp{no.Prefix.Origin, append(append([]gen.Elem(nil), n.Prefix...), n.Ups[ui].Path...)}
+			}
+		}
+	}
+	var keys []string
+	for k := range structured {
+		keys = append(keys, k)
+	}
+	if len(keys) == 0 {
+		return true
+	}
+	sort.Strings(keys)
+	x.Probe("cli-partial-subscription-compared")
+	pick := structured[keys[sc.CLIPick%len(keys)]]
+	depth := 1 + (sc.CLIPick/len(keys))%len(pick.elems)
+	sub := pick.elems[:depth]
+	// expected: final leaves whose index path starts with origin + index(sub)
+	pfx := append([]string{pick.origin}, gen.Index(gen.Path(sub, false, 0))...)
+	want, wantPresent := map[string]string{}, map[string]string{}
+	for k := range expected {
+		p := strings.Split(k, "/")
+		if len(p) >= len(pfx) && strings.Join(p[:len(pfx)], "/") == strings.Join(pfx, "/") {
+			wantPresent[k] = "present"
+			if v, ok := wantSingle[k]; ok {
+				want[k] = v
+			}
+		}
+	}
+	// the four forms
+	var qflag, pelems strings.Builder
+	qflag.WriteString(pick.origin)
+	for _, e := range sub {
+		qflag.WriteString("/" + e.N)
+		pelems.WriteString(fmt.Sprintf(" elem: { name: %q", e.N))
+		var ks []string
+		for k := range e.K {
+			ks = append(ks, k)
+		}
+		sort.Strings(ks)
+		for _, k := range ks {
+			qflag.WriteString(fmt.Sprintf("[%s=%s]", k, e.K[k]))
+			pelems.WriteString(fmt.Sprintf(" key: { key: %q value: %q }", k, e.K[k]))
+		}
+		pelems.WriteString(" }")
+	}
+	inPath := fmt.Sprintf(`subscribe: { prefix: { target: %q } mode: ONCE subscription: { path: { origin: %q%s } } }`, t.Name, pick.origin, pelems.String())
+	inPrefix := fmt.Sprintf(`subscribe: { prefix: { target: %q origin: %q } mode: ONCE subscription: { path: {%s } } }`, t.Name, pick.origin, pelems.String())
+	asElem := fmt.Sprintf(`subscribe: { prefix: { target: %q } mode: ONCE subscription: { path: { elem: { name: %q }%s } } }`, t.Name, pick.origin, pelems.String())
+	os.WriteFile(pf, []byte(inPrefix), 0o600)
+	type inv struct {
+		name  string
+		flags [][2]string
+	}
+	invs := []inv{
+		{"query flags " + qflag.String(), [][2]string{{"address", addr}, {"t", t.Name}, {"q", qflag.String()}, {"qt", "once"}, {"dt", "single"}}},
+		{"inline -proto, origin in the path", [][2]string{{"address", addr}, {"proto", inPath}, {"dt", "single"}}},
+		{"-proto_file, origin in the prefix", [][2]string{{"address", addr}, {"proto_file", pf}, {"dt", "single"}}},
+		{"inline -proto, origin as first element", [][2]string{{"address", addr}, {"proto", asElem}, {"dt", "single"}}},
+	}
+	for _, in := range invs {
+		var ls []string
+		gnmi_cli.VerifReset(func(b []byte) { ls = append(ls, string(b)) })
+		for _, f := range in.flags {
+			setFlag(x, f[0], f[1])
+		}
+		var e error
+		if !runTask(x, "gnmi_cli", func() { e = gnmi_cli.VerifExecuteSubscribe(ctx) }) {
+			x.Violate("C01/gnmi-cli-stuck", "gnmi_cli (%s) did not return or exited; output so far %q", in.name, ls)
+			return false
+		}
+		got := singleLines(ls, t.Name)
+		gotPresent := map[string]string{}
+		for k := range got {
+			gotPresent[k] = "present"
+		}
+		x.Oblige(1)
+		if e != nil || viewString(gotPresent) != viewString(wantPresent) || (!skipJSON && viewString(got) != viewString(want)) {
+			x.Violate("C01/gnmi-cli-partial-differs", "target %s: gnmi_cli subscribed to a subtree with %s printed\n%swant\n%serr=%v\noutput: %q", t.Name, in.name, viewString(got), viewString(want), e, ls)
+			return false
+		}
+	}
+	return true
 }
 
 // judgeHostile (C12): every place the CLI and the client library read a
